@@ -327,6 +327,7 @@ func (f *Frame) externalCall(callee *ssa.Function, args []string, argVals []ssa.
 		case strings.HasPrefix(name, "Load"):
 			return callOut{reach, []string{e.load(st, p)}, st}, true
 		case strings.HasPrefix(name, "Store"):
+			f.storeGuard(argVals[0], args[1], in)
 			e.store(st, p, args[1])
 			return callOut{reach, nil, st}, true
 		case strings.HasPrefix(name, "Add"):
